@@ -1,6 +1,6 @@
 (* C11 — property theorems only.  Each is closed by `exact` of a lemma of C11_Proofs.v / C11_LoudsProofs.v. *)
-From Coq Require Import List NArith Bool.
-From Dae Require Import C11_Spec C11_Model C11_Louds C11_Proofs C11_LoudsProofs C11_BitlistProofs C11_PackedProofs C11_Layer3 C11_RegexProofs.
+From Coq Require Import List NArith Bool Sorting.Permutation.
+From Dae Require Import C11_Spec C11_Model C11_Louds C11_Proofs C11_LoudsProofs C11_BitlistProofs C11_PackedProofs C11_Layer3 C11_RegexProofs C11_Build C11_BuildProofs.
 From Dae.gen Require Import C11_Extracted.
 Import ListNotations.
 Open Scope N_scope.
@@ -229,3 +229,42 @@ Example C11_regex_bit_nonvacuous :
     [lit; [109;121;46] ++ lit ++ [46;108;97;110]; [76;79;67;65;76;72;79;83;84;46]] [65; 64; 1]
   = Some [[65; 64; 1]; [64]; [65; 64; 1]].
 Proof. exact regex_bit_nonvacuous. Qed.
+
+(* Build's parallel workers.  Each non-empty set is built by a worker that then publishes its bit index by
+   appending it to the shared valid-index list MatchDomainBitmap ranges over.  Full statement: for every
+   lock discipline, every number of workers, every interleaving (schedule) that lets all of them finish, and
+   every per-index matching result, bit i of the answer is set iff i is the index of some worker and its
+   structure matches — i.e. no set is lost and sets do not influence each other through Build: *)
+Definition C11_build_full : Prop :=
+  forall d idxs sched has i, bdone (brun d idxs sched) = true ->
+    N.testbit (loop_bits (b_valid (brun d idxs sched)) has) i = existsb (fun j => (j =? i) && has j) idxs.
+
+(* False when the append is not atomic: two workers read length 0, both write slot 0, one index is lost and
+   the set attached to it never matches. *)
+Theorem C11_build_refuted :
+  exists idxs sched has i,
+    bdone (brun Racy idxs sched) = true /\ In i idxs /\ has i = true
+    /\ N.testbit (loop_bits (b_valid (brun Racy idxs sched)) has) i = false.
+Proof. exact build_racy_refuted. Qed.
+Print Assumptions C11_build_refuted.
+
+(* Proved for the discipline the source has (every append to a shared slice under the mutex — extracted from
+   the source text of Build on every run and evaluated with [shape_disc]): all interleavings, any workers. *)
+Theorem C11_build_partial : forall sh idxs sched has i,
+  shape_disc sh = Locked -> bdone (brun (shape_disc sh) idxs sched) = true ->
+  N.testbit (loop_bits (b_valid (brun (shape_disc sh) idxs sched)) has) i = existsb (fun j => (j =? i) && has j) idxs.
+Proof. exact build_shape_answer. Qed.
+Print Assumptions C11_build_partial.
+
+(* The lookup loops are insensitive to the order in which the workers published. *)
+Theorem C11_build_order_insensitive : forall v v' has, Permutation v v' -> loop_bits v has = loop_bits v' has.
+Proof. exact loop_bits_perm. Qed.
+Print Assumptions C11_build_order_insensitive.
+
+Example C11_build_nonvacuous :
+  let idxs := [5; 0; 1023; 64] in
+  let sched := [Start 2; Start 0; Finish 0; Start 1; Start 0] in
+  bdone (brun Locked idxs sched) = true /\ b_valid (brun Locked idxs sched) = [1023; 5; 64; 0]
+  /\ map (N.testbit (loop_bits (b_valid (brun Locked idxs sched)) (fun i => negb (i =? 64)))) [0; 5; 64; 1023; 7]
+     = [true; true; false; true; false].
+Proof. exact build_nonvacuous. Qed.
